@@ -189,7 +189,7 @@ pub fn judge(reg: &Registry, flow: &Flow, target_port: u16, quiet: bool) -> Verd
                 v.latency_eof_ms = Some(e.saturating_duration_since(c).as_millis());
             }
         }
-        Closer::AppAfterAll => {
+        Closer::AppAfterAll | Closer::AppAfterAllTargetHolds => {
             if tgt.ok_bytes < spec.c2s {
                 fail("request-incomplete-at-target".into());
             }
